@@ -421,11 +421,14 @@ func newNode(id int, vals []dbft.PublicKey, amev int64, w *bufio.Writer, pre ...
 				k := int(n.height+1) % len(n.base)
 				n.vals = append(append([]dbft.PublicKey{}, n.base[k:]...), n.base[:k]...)
 			}
-			s := fmt.Sprint(len(n.vals))
-			for _, v := range n.vals {
-				s += fmt.Sprintf(" %d", v.(int))
+			if n.muted == 0 {
+				var sb strings.Builder
+				fmt.Fprint(&sb, len(n.vals))
+				for _, v := range n.vals {
+					fmt.Fprintf(&sb, " %d", v.(int))
+				}
+				n.logf("VALS %s", sb.String())
 			}
-			n.logf("VALS %s", s)
 			return n.vals
 		}),
 		dbft.WithWatchOnly[H](func() bool { n.logf("WO %d", b2i(n.wo)); return n.wo }),
